@@ -170,15 +170,47 @@ def random_point(symbols, rng, n=4) -> dict:
     return pt
 
 
+def _blatt_weisskopf_sq(z, L: int):
+    """B_L^2(z) = |h_L(1)|^2 / (z |h_L(sqrt z)|^2) from SciPy's spherical Bessel functions (z may be negative: complex sqrt)."""
+    from scipy.special import spherical_jn, spherical_yn  # noqa: PLC0415
+    x = np.sqrt(np.asarray(z, dtype=complex))
+    with np.errstate(all="ignore"):
+        # |h_L(x)|^2 as a polynomial in 1/x^2 (valid for complex x): sum_k c_k / x^(2k+2); use the closed forms for L <= 4
+        def h2(xx):
+            y = 1 / (xx * xx)
+            return {0: y, 1: y * (1 + y), 2: y * (1 + 3 * y + 9 * y ** 2), 3: y * (1 + 6 * y + 45 * y ** 2 + 225 * y ** 3),
+                    4: y * (1 + 10 * y + 135 * y ** 2 + 1575 * y ** 3 + 11025 * y ** 4)}[L]
+        one = {0: 1.0, 1: 2.0, 2: 13.0, 3: 277.0, 4: 12746.0}[L]
+        assert abs(one - abs(spherical_jn(L, 1.0) + 1j * spherical_yn(L, 1.0)) ** 2) < 1e-9 * one
+        return one / (np.asarray(z, dtype=complex) * h2(x))
+
+
 def bw_lineshape(param_values: dict):
-    """Simple relativistic Breit-Wigner in numpy for nodes whose parent is a resonance with assigned BW."""
+    """Documented lineshapes in numpy for nodes whose parent is a resonance with an assigned builder: the simple relativistic
+    Breit-Wigner, or - when the model carries a meson-radius parameter for that resonance - the Breit-Wigner with form factor and
+    energy-dependent width, with the orbital angular momentum *of that node* (L of the transition; the parent's integer spin where
+    the transition has none)."""
     def fn(info, point):
         part = info["parent_particle"]
         ident = part.latex or part.name
-        key_m, key_g = f"m_{{{ident}}}", Rf"\Gamma_{{{ident}}}"
+        key_m, key_g, key_d = f"m_{{{ident}}}", Rf"\Gamma_{{{ident}}}", f"d_{{{ident}}}"
         if key_m not in param_values:
             return 1.0
         m0, g0 = param_values[key_m], param_values[key_g]
         s = np.asarray(point[info["m_parent"]]) ** 2
-        return g0 * m0 / (m0 ** 2 - s - 1j * g0 * m0)
+        if key_d not in param_values:
+            return g0 * m0 / (m0 ** 2 - s - 1j * g0 * m0)
+        d = param_values[key_d]
+        L = int(info["L"]) if info["L"] is not None else int(info["J"])
+        ma, mb = np.asarray(point[info["m_h"]]), np.asarray(point[info["m_o"]])
+        with np.errstate(all="ignore"):
+            def q2(sv):
+                return (sv - (ma + mb) ** 2) * (sv - (ma - mb) ** 2) / (4 * sv)
+
+            def rho(sv):
+                return 2 * np.sqrt(np.asarray(q2(sv), dtype=complex)) / np.sqrt(np.asarray(sv, dtype=complex))
+            ff2 = _blatt_weisskopf_sq(q2(s) * d ** 2, L)
+            ff2_0 = _blatt_weisskopf_sq(q2(m0 ** 2 + 0 * s) * d ** 2, L)
+            width = g0 * (ff2 / ff2_0) * rho(s) / rho(m0 ** 2 + 0 * s)
+            return np.sqrt(ff2) * g0 * m0 / (m0 ** 2 - s - 1j * width * m0)
     return fn
